@@ -474,7 +474,8 @@ class EvolutionarySolver(RandomSearchSolver):
         scores_hof = list(zip(*self.hof))[0]
 
         depth_pop = [circuit.depth for (_, circuit) in population]
-        depth_hof = [circuit.depth for (_, circuit) in self.hof]
+        # hall-of-fame slots that were never filled hold (inf, None)
+        depth_hof = [circuit.depth for (_, circuit) in self.hof if circuit is not None]
 
         self.logs["population"].append(
             dict(
